@@ -126,18 +126,20 @@ func scaledMap(sm protocol.StateMap, short func(protocol.State) bool) protocol.S
 	return out
 }
 
-// pathTo finds a shortest message path from the initial state to target.
-func pathTo(sp *protoSpec, target protocol.State) ([]*wmsg, bool) {
+// pathTo finds a shortest message path from the initial state to target;
+// with nonEmpty a shortest path of at least one message (a cycle when the
+// target is the initial state itself).
+func pathTo(sp *protoSpec, target protocol.State, nonEmpty bool) ([]*wmsg, bool) {
 	type node struct {
 		s    protocol.State
 		path []*wmsg
 	}
-	seen := map[protocol.State]bool{sp.Initial: true}
+	seen := map[protocol.State]bool{}
 	queue := []node{{s: sp.Initial}}
 	for len(queue) > 0 {
 		n := queue[0]
 		queue = queue[1:]
-		if statesEq(n.s, target) {
+		if statesEq(n.s, target) && (len(n.path) > 0 || !nonEmpty) {
 			return n.path, true
 		}
 		for ki, k := range sp.Kinds {
@@ -172,7 +174,7 @@ func c14Targets() []c14Target {
 				if e.Agency == protocol.AgencyNone {
 					continue
 				}
-				if _, ok := pathTo(sp, s); !ok {
+				if _, ok := pathTo(sp, s, false); !ok {
 					continue
 				}
 				out = append(out, c14Target{Spec: sp, Role: role, State: s, Timed: hasTimeout(e), IsInit: statesEq(s, sp.Initial)})
@@ -180,6 +182,19 @@ func c14Targets() []c14Target {
 		}
 	}
 	return out
+}
+
+// pickMover chooses the message the agency holder sends in state s: one that
+// leaves s if the map lists one (leaves=true), else any listed one.
+func pickMover(sp *protoSpec, sm protocol.StateMap, s protocol.State) (*wmsg, bool) {
+	perm, _ := sp.splitKinds(sm, s)
+	for _, ki := range perm {
+		m := sp.mustBuild(sp.Kinds[ki], 7)
+		if next, _ := permits(sm, nil, s, m); !statesEq(next, s) {
+			return m, true
+		}
+	}
+	return sp.mustBuild(sp.Kinds[perm[0]], 7), false
 }
 
 func isTimeoutErr(err error) bool {
@@ -267,7 +282,11 @@ func runC14Case(c c14Case, probe *noiseProbe) (res c14Result) {
 	s := sp.Initial
 	enteredAt := startAt
 	if c.Kind != "initial" && c.Kind != "progress" {
-		path, _ := pathTo(sp, c.Target)
+		// slow/fast on the initial state means: the initial state entered again
+		path, okPath := pathTo(sp, c.Target, c.Kind == "slow" || c.Kind == "fast")
+		if !okPath {
+			return discard("no_path")
+		}
 		for _, m := range path {
 			before := r.snap()
 			n := len(before.transitions())
@@ -316,8 +335,7 @@ func runC14Case(c c14Case, probe *noiseProbe) (res c14Result) {
 		return c14Result{Verdict: "pass"}
 
 	case "fast":
-		perm, _ := sp.splitKinds(sm, s)
-		m := sp.mustBuild(sp.Kinds[perm[0]], 7)
+		m, leaves := pickMover(sp, sm, s)
 		time.Sleep(time.Until(enteredAt.Add(c.Delta)))
 		n := len(r.snap().transitions())
 		movedAt, err := move(s, m)
@@ -325,6 +343,22 @@ func runC14Case(c c14Case, probe *noiseProbe) (res c14Result) {
 			return discard("move_failed")
 		}
 		r.waitFor(2*time.Second, func() bool { return nTrans() > n || len(r.errs) > 0 })
+		if !leaves {
+			// every listed message leads back into the timed state: only the
+			// move itself is judged, the timer is legitimately armed again
+			snap := r.snap()
+			if v, bad := early(snap); bad {
+				return v
+			}
+			trs := snap.transitions()
+			if len(snap.Errs) > 0 || len(trs) <= n {
+				return discard("fast_ambiguous")
+			}
+			if trs[n].At.Sub(enteredAt) > c14T*8/10 {
+				return discard("fast_too_slow")
+			}
+			return c14Result{Verdict: "pass"}
+		}
 		// a stale timer would fire around enteredAt+T: keep watching
 		time.Sleep(time.Until(enteredAt.Add(c14T * 16 / 10)))
 		snap := r.snap()
@@ -343,7 +377,9 @@ func runC14Case(c c14Case, probe *noiseProbe) (res c14Result) {
 						movedAt.Sub(enteredAt), c14T, snap.ErrAt[i].Sub(enteredAt), late),
 					Obj: obj(snap, map[string]any{"probe_late": late.String()})}
 			}
-			return discard("fast_ambiguous")
+			d := discard("fast_ambiguous")
+			d.What = fmt.Sprintf("moved %v after entry, error %v after entry, probe lateness %v (%d samples), trace %v", movedAt.Sub(enteredAt), snap.ErrAt[i].Sub(enteredAt), late, samples, snap.traceStrings())
+			return d
 		}
 		if len(snap.Errs) > 0 {
 			return discard("other_error")
@@ -358,8 +394,7 @@ func runC14Case(c c14Case, probe *noiseProbe) (res c14Result) {
 		return c14Result{Verdict: "pass"}
 
 	case "slow":
-		perm, _ := sp.splitKinds(sm, s)
-		m := sp.mustBuild(sp.Kinds[perm[0]], 7)
+		m, _ := pickMover(sp, sm, s)
 		time.Sleep(time.Until(enteredAt.Add(c.Delta)))
 		n := len(r.snap().transitions())
 		_, _ = move(s, m) // may fail: the protocol should be gone by now
@@ -474,6 +509,9 @@ func TestC14(t *testing.T) {
 		rec.Class("verdict_" + res.Verdict)
 		if res.Verdict == "discard" {
 			rec.Class("discard_" + res.Why)
+			if testing.Verbose() {
+				t.Logf("discarded (%s): %s %s", res.Why, c, res.What)
+			}
 			return
 		}
 		if res.Verdict == "pass" {
@@ -526,6 +564,11 @@ func TestC14(t *testing.T) {
 		case tg.IsInit:
 			if tg.Timed {
 				sweep = append(sweep, c14Case{Spec: tg.Spec, Role: tg.Role, Target: tg.State, Kind: "initial"})
+				if _, ok := pathTo(tg.Spec, tg.State, true); ok {
+					sweep = append(sweep,
+						c14Case{Spec: tg.Spec, Role: tg.Role, Target: tg.State, Kind: "slow", Delta: slowDelta(u)},
+						c14Case{Spec: tg.Spec, Role: tg.Role, Target: tg.State, Kind: "fast", Delta: fastDelta(u >> 20)})
+				}
 			} else {
 				sweep = append(sweep, c14Case{Spec: tg.Spec, Role: tg.Role, Target: tg.State, Kind: "untimed"})
 			}
@@ -556,7 +599,10 @@ func TestC14(t *testing.T) {
 	// timed targets (for slow/fast draws), including re-entered initial states
 	var timed []c14Target
 	for _, tg := range targets {
-		if tg.Timed && !tg.IsInit {
+		if !tg.Timed {
+			continue
+		}
+		if _, ok := pathTo(tg.Spec, tg.State, true); ok {
 			timed = append(timed, tg)
 		}
 	}
